@@ -276,6 +276,19 @@ def run(plan, sched_values=None, sched_seed=0):
                         grey = True
                         lapsed.add(idx)
                         pr['lapse_then_pong'] = 1
+                if not grey and not imm:
+                    # several reads pending on the session at once (the
+                    # client's own polls and raw GETs naming its session):
+                    # which of them is handed the next packet and which sits
+                    # out its time-out - ending the session - is a tie
+                    # between readers
+                    pt = [cz for cz in scz + b['causes'].get(sid, [])
+                          if cz[0] == 'poll_timeout']
+                    if pt and any(r[0] == 'GET' and ('sid=%s' % sid) in
+                                  (r[4] or '') for r in a['raws']):
+                        grey = True
+                        lapsed.add(idx)
+                        pr['starved_reader'] = 1
                 if not grey:
                     v.append(V('same-events',
                                'diff|disconnect-count|%d-vs-%d' % (
@@ -358,8 +371,19 @@ def run(plan, sched_values=None, sched_seed=0):
                     idx in lapsed:
                 continue
             a = sa.get(idx, {})
+            b = sb.get(idx, {})
             causes = [cz for sid in a.get('causes', {})
                       for cz in a['causes'][sid]]
+            bcauses = [cz for sid in b.get('causes', {})
+                       for cz in b['causes'][sid]]
+            if any(cz[0] == 'poll_timeout' for cz in causes + bcauses) and \
+                    any(r[0] == 'GET' and a.get('sid') and
+                        ('sid=%s' % a['sid']) in (r[4] or '')
+                        for r in a.get('raws', [])):
+                # (a reader starved by the session's other pending reads:
+                # see the disconnect comparison)
+                pr['starved_reader'] = 1
+                continue
             if _near_end(ta, [], [], causes, window=I + 3 * T + 1) or stuck:
                 continue
             v.append(V('same-state', 'diff|snapshot|%s-vs-%s' % (
